@@ -855,8 +855,19 @@ class CFFTable:
         self.privs = []           # dicts: default, nominal, lsubrs, vsindex
         self.regions = None       # per vsindex: list of regions, region = [(start, peak, end) per axis]
         self.fdselect_format = None
+        self.sids = None          # SID by glyph index (CFF charset), None for CFF2 / CID fonts without one
 
-    def run(self, gid, norm_loc=None, trace=False):
+    def gid_of_std_code(self, code):
+        """Glyph index of the glyph that Standard Encoding code `code` names (seac operands)."""
+        sid = STD_ENC_SID.get(int(code))
+        if sid is None or self.sids is None:
+            return None
+        try:
+            return self.sids.index(sid)
+        except ValueError:
+            return None
+
+    def run(self, gid, norm_loc=None, trace=False, _nested=False):
         """Execute glyph `gid`; norm_loc = normalised coordinates (list) or None for the default."""
         p = self.privs[self.fd[gid]] if self.privs else {"default": 0, "nominal": 0, "lsubrs": [], "vsindex": 0}
         kw = dict(cff2=self.cff2, lsubrs=p["lsubrs"], gsubrs=self.gsubrs, trace=trace)
@@ -878,7 +889,62 @@ class CFFTable:
         else:
             kw["default_width"] = p["default"]
             kw["nominal_width"] = p["nominal"]
-        return Machine(**kw).run(self.glyphs[gid])
+        r = Machine(**kw).run(self.glyphs[gid])
+        if r.seac is not None and not _nested:
+            # endchar with adx ady bchar achar (TN5177 4.3 note on endchar): the glyph is the base glyph
+            # plus the accent glyph displaced by (adx, ady)
+            adx, ady, bchar, achar = r.seac
+            for code, dx, dy in ((bchar, 0, 0), (achar, adx, ady)):
+                g = self.gid_of_std_code(code)
+                if g is None or g >= len(self.glyphs):
+                    r.errors.append("seac-component-missing:%d" % int(code))
+                    continue
+                try:
+                    c = self.run(g, norm_loc, _nested=True)
+                except T2Error as e:
+                    r.errors.append("seac-component-unexecutable:%d" % int(code))
+                    continue
+                r.path.extend((op, tuple((x + dx, y + dy) for x, y in pts)) for op, pts in c.path)
+        return r
+
+
+def _std_enc_sid():
+    m = {}
+    for first, last, sid in ((32, 126, 1), (161, 175, 96), (177, 180, 111), (182, 189, 115), (191, 191, 123),
+                             (193, 200, 124), (202, 203, 132), (205, 208, 134), (225, 225, 138), (227, 227, 139),
+                             (232, 235, 140), (241, 241, 144), (245, 245, 145), (248, 251, 146)):
+        for c in range(first, last + 1):
+            m[c] = sid + c - first
+    return m
+
+
+STD_ENC_SID = _std_enc_sid()
+
+
+def _charset(d, off, nglyphs):
+    """SID (or CID) by glyph index; predefined charsets 0..2 are identity-like up to their size."""
+    if off in (0, 1, 2):
+        return list(range(nglyphs)) if off == 0 else None
+    fmt = d[off]
+    sids = [0]
+    pos = off + 1
+    if fmt == 0:
+        for _ in range(nglyphs - 1):
+            sids.append(struct.unpack(">H", d[pos:pos + 2])[0])
+            pos += 2
+    elif fmt in (1, 2):
+        while len(sids) < nglyphs:
+            if fmt == 1:
+                first, nleft = struct.unpack(">HB", d[pos:pos + 3])
+                pos += 3
+            else:
+                first, nleft = struct.unpack(">HH", d[pos:pos + 4])
+                pos += 4
+            sids.extend(range(first, first + nleft + 1))
+        del sids[nglyphs:]
+    else:
+        raise T2Error("charset format %d" % fmt)
+    return sids
 
 
 def _tent(c, s, p, e):
@@ -1066,6 +1132,8 @@ def parse_cff(data):
             raise T2Error("no CharStrings")
         t.glyphs, _ = _index(d, int(top[17][-1]), t.cff2)
         n = len(t.glyphs)
+        if not t.cff2 and (12, 30) not in top:       # name-keyed CFF: charset gives the glyphs' SIDs
+            t.sids = _charset(d, int(top[15][-1]) if 15 in top and top[15] else 0, n)
         if (12, 36) in top:
             fds, _ = _index(d, int(top[(12, 36)][-1]), t.cff2)
             for fdd in fds:
